@@ -3,6 +3,7 @@ from . import serial, bytesacct
 
 
 def run(ctx):
+    serial.rule_zeroed_particle_arrays(ctx)     # R05.12: persisted particle arrays contain no bytes nobody computed
     from . import c06 as _c06
     _c06.rule_empty_delta(ctx)     # R06.10: a state equal to the first snapshot is still written
     from . import c19
